@@ -90,6 +90,11 @@ pub struct C11Plan {
     /// Indices into `files`: these recognised files are symbolic links to a file stored elsewhere.
     #[serde(default)]
     pub symlinks: Vec<u8>,
+    /// A further upload from the *same* payload directory in the same run (and process), after the
+    /// directory has been brought to this plan's state: files replaced by new ones of other size and
+    /// content (new inodes: written aside and renamed over), removed, added.
+    #[serde(default)]
+    pub then: Option<Box<C11Plan>>,
 }
 
 #[derive(Clone, Copy, Debug, PartialEq, Serialize, Deserialize)]
@@ -195,10 +200,35 @@ impl Drop for Scratch {
 }
 
 pub fn run_plan(plan: &C11Plan, want_trace: bool) -> RunOut {
-    let mut out = RunOut::new();
     let scratch = Scratch::new();
+    let mut out = run_round(plan, &scratch, want_trace);
+    let mut cur = plan;
+    while out.violations.is_empty() {
+        let Some(next) = cur.then.as_deref() else { break };
+        let o2 = run_round(next, &scratch, want_trace);
+        out.violations.extend(o2.violations);
+        out.stats.merge(&o2.stats);
+        out.stats.hit("probe.second_upload_from_the_same_directory");
+        out.trace_hash ^= o2.trace_hash.rotate_left(17);
+        out.shape ^= o2.shape.rotate_left(23);
+        out.trace.extend(o2.trace);
+        out.nontrivial = true;
+        cur = next;
+    }
+    out
+}
+
+fn run_round(plan: &C11Plan, scratch: &Scratch, want_trace: bool) -> RunOut {
+    let mut out = RunOut::new();
     let dir = scratch.0.join("payload");
     std::fs::create_dir_all(&dir).expect("payload dir");
+    // recognised files of an earlier round that this round's directory does not hold
+    for (rel, _) in ID_TABLE.iter() {
+        let p = dir.join(rel);
+        if (p.exists() || p.is_symlink()) && !plan.files.iter().any(|(pi, _)| ID_TABLE[*pi as usize % ID_TABLE.len()].0 == *rel) {
+            let _ = std::fs::remove_file(&p);
+        }
+    }
     // -- the payload directory on (tmpfs) disk
     let mut truth: BTreeMap<u8, Vec<u8>> = BTreeMap::new();
     for (pi, size) in &plan.files {
@@ -212,9 +242,14 @@ pub fn run_plan(plan: &C11Plan, want_trace: bool) -> RunOut {
             std::fs::create_dir_all(&store).expect("store dir");
             let target = store.join(format!("blob-{id:02x}"));
             std::fs::write(&target, &c).expect("write link target");
+            let _ = std::fs::remove_file(&p);
             std::os::unix::fs::symlink(&target, &p).expect("symlink");
         } else {
-            std::fs::write(&p, &c).expect("write payload file");
+            // (written aside and renamed over: a file replaced between two uploads is a new inode)
+            let tmp = p.with_extension("tmp-new");
+            std::fs::write(&tmp, &c).expect("write payload file");
+            let _ = std::fs::remove_file(&p);
+            std::fs::rename(&tmp, &p).expect("rename payload file");
         }
         truth.insert(id, c);
     }
@@ -974,6 +1009,7 @@ pub fn random_plan(rng: &mut Rng, max_size: u32) -> C11Plan {
         cut: None,
         fs_faults: vec![],
         symlinks: vec![],
+        then: None,
     };
     if rng.pct(15) {
         for k in 0..p.files.len() {
@@ -1068,7 +1104,47 @@ impl Check for C11 {
                 fs_faults: vec![],
                 // every other one as a symbolic link to a file stored elsewhere
                 symlinks: if i % 2 == 1 { vec![0] } else { vec![] },
+                then: None,
             }
+        }));
+        // two (three) uploads in a row from one payload directory, in one process: between them files are
+        // replaced by new ones of other size and content (new inodes), removed, added - every upload
+        // announces and serves the directory as it is *then*
+        fams.push(Family::new("uploads_in_a_row_from_one_directory", 21 * 4, true, |i, rng| {
+            let a = (i % 21) as u8;
+            let b = ((i + 7) % 21) as u8;
+            let c = ((i + 13) % 21) as u8;
+            let (ida, idb, idc) = (ID_TABLE[a as usize].1, ID_TABLE[b as usize].1, ID_TABLE[c as usize].1);
+            let block = [64u32, 256, 1000, 300][(i / 21) as usize];
+            let mk = |seed: u64, files: Vec<(u8, u32)>, requests: Vec<Req>, end: End, then: Option<Box<C11Plan>>| C11Plan {
+                content_seed: seed,
+                files,
+                extra: vec![("readme.txt".into(), false)],
+                block,
+                password: 123456,
+                requests,
+                end,
+                mode: Mode::Lockstep,
+                sched: Sched::whole(),
+                paced_cuts: vec![],
+                paced_gaps_ms: vec![],
+                cut: None,
+                fs_faults: vec![],
+                symlinks: vec![],
+                then,
+            };
+            let (s1, s2, s3) = (rng.next_u64(), rng.next_u64(), rng.next_u64());
+            // third upload: the first file grown again, the second back
+            let third = mk(s3, vec![(a, 3 * block + 5), (b, 10)], vec![Req::Data { id: ida, offset: 2 * block }, Req::Data { id: idb, offset: 0 }, Req::Data { id: idc, offset: 0 }], End::Completion, None);
+            // second upload: first file replaced (smaller, other content), second removed, third added; it ends
+            // with an abort of the terminal / with a request for the file that is gone (an error ending)
+            let second_reqs = if i % 2 == 0 {
+                vec![Req::Data { id: ida, offset: 0 }, Req::Data { id: idc, offset: 0 }, Req::Data { id: ida, offset: block }]
+            } else {
+                vec![Req::Data { id: ida, offset: 0 }, Req::Data { id: idb, offset: 0 }]
+            };
+            let second = mk(s2, vec![(a, block + 3), (c, 2 * block)], second_reqs, if i % 4 < 2 { End::Completion } else { End::Abort(0x6c) }, Some(Box::new(third)));
+            mk(s1, vec![(a, 2 * block + 1), (b, block)], vec![Req::Data { id: ida, offset: 0 }, Req::Data { id: idb, offset: 0 }, Req::Data { id: ida, offset: block }], End::Completion, Some(Box::new(second)))
         }));
         // an unrelated file deeper in the tree whose last two path components equal a recognised path -
         // with and without the real file next to it: only the real one is announced and served
@@ -1096,6 +1172,7 @@ impl Check for C11 {
                 cut: None,
                 fs_faults: vec![],
                 symlinks: vec![],
+                then: None,
             }
         }));
         // the terminal pauses (11 s, 61 s, 1 h) at every byte position of a three-request upload: between
@@ -1122,6 +1199,7 @@ impl Check for C11 {
                     cut: None,
                     fs_faults: vec![],
                 symlinks: vec![],
+                then: None,
                 }
             }));
         }
@@ -1163,6 +1241,7 @@ impl Check for C11 {
                 cut: None,
                 fs_faults: vec![FsFault { file: id, op, nth, kind }],
                 symlinks: vec![],
+                then: None,
             }
         }));
         let (count, max_size) = match tier {
